@@ -2,6 +2,7 @@ package core
 
 import (
 	"fmt"
+	"go/constant"
 	"go/token"
 	"go/types"
 	"sort"
@@ -113,6 +114,13 @@ type Sim struct {
 	MaxPaths int
 	paths    int
 	Trunc    bool
+	// InlineDeep, when set, selects repository callees (any shape, with side
+	// effects) that are simulated in place instead of being summarised by
+	// their mod-set: their events and branch facts become part of the caller's
+	// traces. Used where a rule must see through a helper that was extracted
+	// from the function under analysis.
+	InlineDeep func(callee *ssa.Function) bool
+	depth      int
 }
 
 type frame struct {
@@ -148,11 +156,15 @@ func (s *Sim) Run(fn *ssa.Function) []*Trace {
 }
 
 func (s *Sim) walk(fr *frame, b *ssa.BasicBlock, prev *ssa.BasicBlock, t *Trace, onPath map[*ssa.BasicBlock]bool, done func(*Trace, []string)) {
+	s.walkFrom(fr, b, prev, t, onPath, done, 0)
+}
+
+func (s *Sim) walkFrom(fr *frame, b *ssa.BasicBlock, prev *ssa.BasicBlock, t *Trace, onPath map[*ssa.BasicBlock]bool, done func(*Trace, []string), start int) {
 	if s.paths > s.MaxPaths {
 		s.Trunc = true
 		return
 	}
-	if onPath[b] {
+	if start == 0 && onPath[b] {
 		t.Exit = "truncated"
 		s.Trunc = true
 		s.paths++
@@ -164,7 +176,7 @@ func (s *Sim) walk(fr *frame, b *ssa.BasicBlock, prev *ssa.BasicBlock, t *Trace,
 	// phis
 	for _, in := range b.Instrs {
 		phi, ok := in.(*ssa.Phi)
-		if !ok {
+		if !ok || start > 0 {
 			break
 		}
 		for i, pr := range b.Preds {
@@ -178,6 +190,9 @@ func (s *Sim) walk(fr *frame, b *ssa.BasicBlock, prev *ssa.BasicBlock, t *Trace,
 		}
 	}
 	for idx, in := range b.Instrs {
+		if idx < start {
+			continue
+		}
 		switch x := in.(type) {
 		case *ssa.Phi, *ssa.DebugRef:
 		case *ssa.Store:
@@ -203,6 +218,38 @@ func (s *Sim) walk(fr *frame, b *ssa.BasicBlock, prev *ssa.BasicBlock, t *Trace,
 		case *ssa.Go:
 			s.callEvent(fr, t, x, true)
 		case *ssa.Call:
+			if s.InlineDeep != nil && s.depth < 3 {
+				if callee := x.Common().StaticCallee(); callee != nil && s.P.inRepo(callee) && len(callee.Blocks) > 0 && !s.Record[s.P.FuncName(callee)] && s.InlineDeep(callee) {
+					cfr := &frame{fn: callee, fi: s.P.Info(callee), regs: map[ssa.Value]string{}}
+					for i, prm := range callee.Params {
+						if i < len(x.Common().Args) {
+							cfr.regs[prm] = s.val(fr, t, x.Common().Args[i])
+						}
+					}
+					s.depth++
+					next := idx + 1
+					s.walk(cfr, callee.Blocks[0], nil, t, map[*ssa.BasicBlock]bool{}, func(t2 *Trace, ret []string) {
+						if t2.Exit != "return" {
+							done(t2, nil)
+							return
+						}
+						t2.Exit, t2.ExitPos, t2.RetRel = "", "", nil
+						fr2 := fr.cloneRegs()
+						if len(ret) == 1 {
+							fr2.regs[x] = ret[0]
+							// a returned constant boolean is decided on this trace
+						} else if len(ret) > 1 {
+							fr2.regs[x] = "tuple:" + strings.Join(ret, "|")
+						}
+						d := s.depth
+						s.depth = d - 1
+						s.walkFrom(fr2, b, prev, t2, onPath, done, next)
+						s.depth = d
+					})
+					s.depth--
+					return
+				}
+			}
 			res := s.call(fr, t, x)
 			if len(res) == 1 {
 				fr.regs[x] = res[0]
@@ -386,8 +433,31 @@ func (s *Sim) condRel(fr *frame, t *Trace, v ssa.Value) (Rel, bool) {
 		if r, ok := fr.rels[x]; ok {
 			return r, true
 		}
+	case *ssa.Phi:
+		// a boolean built by && / || / switch-case expressions: along this
+		// path it is the selected incoming value
+		if sel, ok := fr.phiSel[x]; ok && sel != v {
+			switch c := sel.(type) {
+			case *ssa.Const:
+				if c.Value != nil && c.Value.Kind() == constant.Bool {
+					if constant.BoolVal(c.Value) {
+						return Rel{"0", "==", "0"}, true
+					}
+					return Rel{"0", "==", "1"}, true
+				}
+			case *ssa.BinOp, *ssa.UnOp, *ssa.Phi:
+				return s.condRel(fr, t, sel)
+			}
+		}
 	}
-	return Rel{s.val(fr, t, v), "==", "true"}, true
+	switch bv := s.val(fr, t, v); bv {
+	case "true":
+		return Rel{"0", "==", "0"}, true
+	case "false":
+		return Rel{"0", "==", "1"}, true
+	default:
+		return Rel{bv, "==", "true"}, true
+	}
 }
 
 // val evaluates an SSA value to a symbolic term in the current trace.
